@@ -264,6 +264,26 @@ def check(ctx):
         s = repr(v)
         ctx.record(canon_sx(sx), any(ch in s for ch in '"\\{[') or "NA" in s or "nan" in s or "inf" in s or "Int64" in s, [type(v).__name__])
         for sig, detail in fails: ctx.fail(sig, dict(kind="py", expr=repr_expr(v)), detail)
+    # the rarely used keyword argument input_locale, on containers whose inner encoding raises and on ones where it does not; afterwards every value
+    # encoded so far must encode exactly as it did the first time (nothing a call leaves behind may colour a later call)
+    makers = [lambda: T.UAExtensionObject(type_nodeid=T.UANodeId(0, "i", "1"), body=T.UAXMLElement("<a/>")),
+              lambda: T.UAExtensionObject(type_nodeid=T.UANodeId(0, "i", "1"), body=T.UAByteString(bytearray(b"ab"))),
+              lambda: T.UAVariant(T.UALocalizedText("t", "en")), lambda: T.UAEngineeringUnits(T.UAEUInformation(T.UALocalizedText("m", "en"), T.UALocalizedText(pd.NA, pd.NA), 5, "http://u")),
+              lambda: T.UAEngineeringUnits(T.UAEUInformation(T.UALocalizedText(pd.NA, "en"), T.UALocalizedText("d", "en"), 5, pd.NA)),
+              lambda: T.UAVariant(T.UAByteString(bytearray(b"ab"))), lambda: T.UALocalizedText("x", "en"), lambda: T.UAVariant(T.UAString("s")),
+              lambda: T.UAVariant(T.UAListOf((T.UALocalizedText("a", "en"), T.UAInt32(1)), "LocalizedText"))]
+    probes = []
+    for mk_ in makers:
+        try: probes.append(mk_())
+        except BaseException: pass
+    for pr in probes:
+        for kw in (dict(input_locale="zz"), dict()):
+            try: pr.json_encode(**kw)
+            except BaseException: pass
+    for v0, out0 in meta[:120]:
+        again = impl_json(v0)
+        if again != out0:
+            ctx.fail("C10/depends-on-earlier-call", dict(kind="py", expr=repr_expr(v0)), "json_encode of %r gave %r at first and %r after other values had been encoded (some with input_locale=)" % (v0, out0, again))
     ans = vlib.run_model(reqs, shards=12)
     uns = 0
     for (v, out), a in zip(meta, ans):
